@@ -568,6 +568,10 @@ def run(prop, tier, seed):
     n = 4000 if tier == "quick" else 40000
     if problems:
         n = max(n, 12000)   # broken proof or tie: search with the thorough budget
+    # drift fingerprint (a search heuristic, never a verdict): token hashes of the hand-modelled functions
+    drift = fingerprint_drift()
+    if drift:
+        n = max(n, 12000)
     bsz = 500
     dist = {}
     b0 = 0
@@ -653,7 +657,7 @@ def run(prop, tier, seed):
         "traces_validated_against_impl": outcome.cases, "ops": outcome.ops, "panics_observed": outcome.panics,
         "disagreements": len(outcome.disagree), "monitor_failures": {k: len(v) for k, v in outcome.monfail.items()},
         "distribution": dist, "builds": [b for b, _ in bins],
-        "samples": sample_cases(all_cases), "proof_problems": problems, "honest_wrap_replays": {k: v[1] for k, v in honest.items()}, "known_findings_reproduced": sorted(known_seen),
+        "samples": sample_cases(all_cases), "proof_problems": problems, "drifted_functions": drift, "honest_wrap_replays": {k: v[1] for k, v in honest.items()}, "known_findings_reproduced": sorted(known_seen),
         "explanation": "theorems about the Gallina model of src/timers/mod.rs (coq/T) + translator-regenerated arithmetic (coq/Gen) + correspondence of results and full internal state after every op, debug and release builds",
     }
     ev.assumptions = ["instants < 2^62 ns from t0; fewer than 2^31 timers pending", "histories outside the known classes GenWrap (F2) / SeqWrap (F3) / NearBoundaryVar (F6)",
@@ -681,6 +685,15 @@ def honest_wrap_replays(prop, bins):
         else:
             res["SeqWrap"] = ("order=B,A" in out, "class=SeqWrap honest replay without hooks (2^31-1 timer_add calls): " + out)
     return res
+
+
+def fingerprint_drift():
+    try:
+        base = dict(l.split() for l in open(os.path.join(vlib.ROOT, "tools", "fingerprints", "timers.txt")) if l.strip())
+        cur = dict(l.split() for l in open(os.path.join(vlib.COQ, "Gen", "hashes.txt")) if l.strip())
+    except OSError:
+        return ["fingerprints unavailable"]
+    return sorted(k for k in set(base) | set(cur) if base.get(k) != cur.get(k))
 
 
 def sample_cases(all_cases):
